@@ -2448,7 +2448,7 @@ class Converter:
         """
         prefixes = set(prefixes)
         records = [
-            record
+            record.model_copy(deep=True)
             for record in self.records
             if any(prefix in prefixes for prefix in record._all_prefixes)
         ]
@@ -2535,7 +2535,9 @@ def chain(converters: Sequence[Converter], *, case_sensitive: bool = True) -> Co
     rv = Converter([])
     for converter in converters:
         for record in converter.records:
-            rv.add_record(record, case_sensitive=case_sensitive, merge=True)
+            rv.add_record(
+                record.model_copy(deep=True), case_sensitive=case_sensitive, merge=True
+            )
     return rv
 
 
